@@ -43,4 +43,5 @@ for sid in ids:
         for l in und[:2]:
             print('    ', l[:200])
     out[sid] = [(p, rc, refuted[:3]) for p, rc, viol, und, refuted, dt in res]
+os.makedirs(os.path.join(VERIF, 'scratch'), exist_ok=True)
 json.dump(out, open(os.path.join(VERIF, 'scratch', 'seeded_last.json'), 'w'), indent=1)
